@@ -260,6 +260,16 @@ def check_race(case, r, obs, expect_success=True):
 
 
 def run_case(case, obs):
+    if case.get("selftest") == "thespian-semantics":
+        # replay tier: the actor runtime of the simulator against Thespian's own simpleSystemBase (trusted-base check, not a property)
+        from sim import selftest
+        from vlib import core
+
+        ok, detail = selftest.compare()
+        if not ok:
+            raise core.HarnessError(f"the simulated actor runtime and Thespian disagree on the ping/pong/poison/exit scenario: {detail}")
+        obs.cls("selftest-thespian-semantics")
+        return
     r = sim_race.run_race(case)
     check_race(case, r, obs)
 
